@@ -6,6 +6,7 @@ from .. import monitor as M
 from .. import core
 from ..desc import lift, lower, same_set, show
 from ..gen import NAMES
+from .. import gen
 from ..lib import load
 
 ONE_D = ("L", "H", "S")
@@ -32,9 +33,109 @@ def kname(d):
 
 
 def lift_pair(case):
-    """the two real operands of a case (constructor forms picked by case['ls'])"""
+    """the two real operands of a case (constructor forms picked by case['ls']).
+    With case['hist'] one operand reaches its pose through a history: it is built
+    translated by -v, optionally *used* there (hashed, compared, queried, measured),
+    then moved by v; the moved receiver or the returned object becomes the operand."""
     r = random.Random(case.get("ls", 0))
-    return lift(case["a"], r), lift(case["b"], r)
+    h = case.get("hist")
+    if not h:
+        return lift(case["a"], r), lift(case["b"], r)
+    out = []
+    for idx, d in enumerate((case["a"], case["b"])):
+        out.append(lift_via_history(d, h, r) if idx == h["who"] else lift(d, r))
+    return out[0], out[1]
+
+
+HIST_STATS = {"built": 0, "touched": 0, "fallback": 0}
+
+
+def maybe_hist(case, rng, p=0.1, nops=2):
+    """add an operand history to a generated case with probability p"""
+    if rng.random() >= p:
+        return case
+    who = rng.randrange(nops)
+    d = case["abc"[who]] if "abc"[who] in case else case["a"]
+    v = tuple(gen.F(rng.randint(-8, 8), rng.choice((1, 2, 4))) for _ in range(3))
+    own = _own_vectors(d)
+    if own and rng.random() < 0.35:
+        v = K.mul(rng.choice(own), rng.choice((1, -1, 2, gen.F(1, 2))))
+    if v == (0, 0, 0):
+        v = (gen.F(1), gen.F(0), gen.F(0))
+    case["hist"] = {"who": who, "v": v, "use": rng.choice(("receiver", "receiver", "returned")), "touch": rng.random() < 0.75}
+    return case
+
+
+def _own_vectors(d):
+    k = d[0]
+    if k in ("L", "H"):
+        return [d[2]]
+    if k == "S":
+        return [K.sub(d[2], d[1])]
+    if k == "PL":
+        u, v = gen._plane_basis(d[2])
+        return [gen._reduce(d[2]), u, v]
+    if k == "PG":
+        vs = d[1]
+        return [K.sub(vs[1], vs[0]), gen._reduce(K.polygon_normal(vs))]
+    if k == "PH":
+        f = d[2][0]
+        return [K.sub(f[1], f[0]), K.sub(d[1][0], d[1][-1])]
+    return []
+
+
+def touch(o, d):
+    """use an object the way a program would before moving it: hash, ==, repr, membership,
+    an intersection, measures - so that anything the library caches lazily gets cached"""
+    G = load()
+    k = d[0]
+    HIST_STATS["touched"] += 1
+    for fn in (lambda: hash(o), lambda: o == o, lambda: repr(o)):
+        try:
+            fn()
+        except Exception:
+            pass
+    if k != "P":
+        feats = gen.all_features(d)
+        for q in feats[:2] + [K.add(feats[0], (gen.F(1, 4), gen.F(1, 2), gen.F(-1, 4)))]:
+            try:
+                G.Point(*[float(c) for c in q]) in o
+            except Exception:
+                pass
+        try:
+            G.intersection(o, G.Line(G.Point(*[float(c) for c in feats[0]]), G.Vector(1.0, 2.0, -1.0)))
+            G.intersection(G.Segment(G.Point(*[float(c) for c in feats[-1]]), G.Vector(0.5, -1.0, 2.0)), o)
+        except Exception:
+            pass
+    for name in ("length", "area", "volume"):
+        if k in ("S", "PG", "PH") and hasattr(o, name):
+            try:
+                getattr(o, name)()
+            except Exception:
+                pass
+
+
+def lift_via_history(d, h, r):
+    from ..desc import translate
+    G = load()
+    v = h["v"]
+    d0 = translate(d, K.mul(v, -1))
+    if not gen.ok_coords(d0, 64, 64):
+        HIST_STATS["fallback"] += 1
+        return lift(d, r)
+    o = lift(d0, r)
+    HIST_STATS["built"] += 1
+    if h.get("touch"):
+        touch(o, d0)
+    ret = o.move(G.Vector(*[float(c) for c in v]))
+    return o if h["use"] == "receiver" else ret
+
+
+def hist_cell(case):
+    h = case.get("hist")
+    if not h:
+        return []
+    return ["pose:history/%s/%s" % ("used-then-moved" if h.get("touch") else "moved", h["use"])]
 
 
 def run_inter(fn, x, y, exp, tag, mu, keybase):
